@@ -53,13 +53,12 @@ CFG = {
                      ":30/:45 offsets (tables from zdump), leaves/vacations/bookings/global holidays; one stream with calendars NOT aligned "
                      "to the resolution (known finding F6 region); oracle: booked seconds per slot <= declared working seconds of an "
                      "independent calendar evaluation; non-trivial = distinct projects with at least one booking"),
-    "C03": dict(files=["Properties/C03.lean"], oracles=("C03",), classify=classify_c03,
+    "C03": dict(files=["Properties/C03.lean"], oracles=("C03",),
                 knobs=[(2, Knobs(envelope="asap", p_eff=0.6, sub_slot=0.8, p_team=0.35, p_alt=0.25)),
                        (1, Knobs(envelope="alap", p_eff=0.6, sub_slot=0.8, p_team=0.3, p_alt=0.2))],
                 nontrivial=any_booking,
                 rule="ASAP and ALAP envelope projects with efficiencies, sub-slot efforts, teams, alternatives; oracle: booked x efficiency "
-                     "= effort (uniform-efficiency teams), no further slot, team members booked for the same instants, one candidate set; "
-                     "failures inside the triggers of open findings F31/F32 are counted as known region"),
+                     "= effort (uniform-efficiency teams), no further slot, team members booked for the same instants, one candidate set"),
     "C04": dict(files=["Properties/C04.lean"], oracles=("C04",),
                 knobs=[(2, Knobs(envelope="asap", p_dep=0.85, p_gap=0.6, p_onstart=0.25, p_container=0.5, p_prec=0.25, p_pin=0.25, aligned_only=False)),
                        (1, Knobs(envelope="alap", p_dep=0.85, p_gap=0.6, p_container=0.5, p_prec=0.25))],
